@@ -5,7 +5,7 @@ from mvlib import hexs, unhex, repo_samples
 
 SYNTH = {"NL", "Indent", "Dedent", "Eof"}
 EDITS = ["trailing_comment", "comment_line_next", "comment_line_prev", "blank_line", "ws_line", "trailing_spaces",
-         "final_newline", "crlf", "parens"]
+         "final_newline", "crlf", "parens", "comment_line_last", "ws_line_last"]
 
 
 def safe_lines(text, toks):
@@ -34,6 +34,16 @@ def apply_edit(rng, kind, text, toks):
         return text.replace("\n", "\r\n")
     if not code:
         return None
+    if kind in ("comment_line_last", "ws_line_last"):
+        # a comment / white-space line AFTER the last code line, at the indentation of that line, of its block's head, or none
+        last = code[-1]
+        if last in bad or any(lines[j].strip() for j in range(last + 1, len(lines))):
+            return None
+        ind = rng.choice([indent_of(lines[last]), indent_of(lines[last]), 0, max(0, indent_of(lines[last]) - 4)])
+        new = " " * ind + ("# the end" if kind == "comment_line_last" else " " * rng.choice([0, 1, 4]))
+        body = lines[:last + 1] + [new] * rng.choice([1, 1, 2])
+        tail = rng.choice(["", "\n", "\n\n"])
+        return "\n".join(body) + tail
     i = rng.choice(code)
     if kind == "trailing_comment":
         if any(t.kind == "Comment" and t.l1 == i + 1 for t in toks):
@@ -145,7 +155,7 @@ def run(chk):
             if k1 != k2:
                 why = "lexer verdict changed by %s" % ek
             elif k1 == "ok":
-                sq = ek in ("blank_line", "ws_line", "comment_line_next", "comment_line_prev")
+                sq = ek in ("blank_line", "ws_line", "comment_line_next", "comment_line_prev", "comment_line_last", "ws_line_last")
                 if consumed(t1, sq) != consumed(t2, sq):
                     why = "token stream consumed by the parser changed by %s" % ek
         if why:
